@@ -20,7 +20,7 @@ def _shims(m):
         m.shim('regions.io.fits.read', 'int', symx.sint)
 
 
-def build(kind, m, pre, meta):
+def build(kind, m, pre, meta, aunit='deg'):
     import regions as R
     from regions import PixCoord, RegionMeta
     meta = RegionMeta(meta)
@@ -33,7 +33,7 @@ def build(kind, m, pre, meta):
         return R.CirclePixelRegion(PixCoord(r_('cx'), r_('cy')), p_('r'), meta=meta)
     if kind in ('ellipse', 'rectangle'):
         cls = R.EllipsePixelRegion if kind == 'ellipse' else R.RectanglePixelRegion
-        return cls(PixCoord(r_('cx'), r_('cy')), p_('w'), p_('h'), angle=m.angle(pre + 'theta', 'deg'), meta=meta)
+        return cls(PixCoord(r_('cx'), r_('cy')), p_('w'), p_('h'), angle=m.angle(pre + 'theta', aunit), meta=meta)
     if kind == 'annulus-circle':
         r1 = p_('r1')
         return R.CircleAnnulusPixelRegion(PixCoord(r_('cx'), r_('cy')), r1, r1 + p_('dr'), meta=meta)
@@ -104,7 +104,7 @@ def h_roundtrip(kinds, includes, components, m):
         if inc != 'absent':
             meta['include'] = inc
         if comp == 'sym':
-            cv = m.integer(f'comp{i}', lo=0, hi=1000)
+            cv = m.integer(f'comp{i}', lo=0, hi=100000)
             meta['component'] = cv
             comps.append(cv)
         elif comp is not None:
@@ -112,7 +112,12 @@ def h_roundtrip(kinds, includes, components, m):
             comps.append(comp)
         else:
             comps.append(None)
-        regs.append(build(k, m, f'r{i}_', meta))
+        au = 'deg'
+        if '@' in k:
+            k, au = k.split('@')
+            kinds = list(kinds)
+            kinds[i] = k
+        regs.append(build(k, m, f'r{i}_', meta, aunit=au))
     before = [_geom(r) for r in regs]
     with warnings.catch_warnings(record=True) as wlist:
         warnings.simplefilter('always')
@@ -226,6 +231,7 @@ def harnesses(tier):
         (['circle', 'point'], ['absent', 'absent'], [None, None]),
         (['text', 'annulus-rectangle'], ['absent', 'absent'], [None, None]),
         (['polygon', 'polygon4'], ['absent', 'absent'], [None, None]),
+        (['ellipse', 'rectangle@rad', 'ellipse@arcmin'], ['absent', 'absent', 'absent'], [None, None, None]),
     ]
     if not q:
         lists += [
